@@ -138,6 +138,7 @@ func loadPkgCache(lpkg *listedPackage, pkg *types.Package, files []*ast.File, in
 		return pkgCache{}, err
 	}
 	filename, _, err := fsCache.GetFile(lpkg.GarbleActionID)
+	verifEvent("pkgcache-get", "pkg", lpkg.ImportPath, "key", lpkg.GarbleActionID, "hit", err == nil)
 	// Already in the cache; load it directly.
 	if err == nil {
 		data, err := os.ReadFile(filename)
@@ -185,7 +186,9 @@ func computePkgCache(fsCache *cache.Cache, lpkg *listedPackage, pkg *types.Packa
 			continue // nothing to load
 		}
 		if err := func() error { // function literal for the deferred close
+			verifEvent("pkgcache-dep", "pkg", lpkg.ImportPath, "key", lpkg.GarbleActionID)
 			if filename, _, err := fsCache.GetFile(lpkg.GarbleActionID); err == nil {
+				verifEvent("pkgcache-dep-hit", "pkg", lpkg.ImportPath)
 				// Cache hit; merge its entries into computed. We decode into a
 				// fresh value rather than onto computed, as msgp replaces maps
 				// rather than merging into them.
@@ -247,6 +250,7 @@ func computePkgCache(fsCache *cache.Cache, lpkg *listedPackage, pkg *types.Packa
 	if err := fsCache.PutBytes(lpkg.GarbleActionID, data); err != nil {
 		return pkgCache{}, err
 	}
+	verifEvent("pkgcache-put", "pkg", lpkg.ImportPath, "key", lpkg.GarbleActionID, "names", len(computed.ReflectObjectNames), "apis", len(computed.ReflectAPIs))
 	return computed, nil
 }
 
